@@ -170,7 +170,9 @@ def explore(pid, vseed, tier, n_runs, jobs, budget_s, chunk=8, start=0, stop_on_
         if not exhausted:
           stopped_early = True
         exhausted = True
-      if stop_on_violation and any(r.get("violation") for r in results):
+      if stop_on_violation and any(r.get("violation") and (not callable(stop_on_violation) or
+                                                              stop_on_violation(r["violation"]))
+                                   for r in results):
         exhausted = True          # development mode: the first violation is enough
       if time.time() > hard_deadline:
         for f in pending:
